@@ -107,7 +107,9 @@ CLAIMED.update({
             "and core_kept whose rows sit as one contiguous block (reversed exactly for minus-strand pieces) in a scaffold of an output assembly; "
             "two such pieces of one Pretext scaffold lie in one output scaffold in Pretext order; the hypothesis on input strands is shown necessary. "
             "PAINTED maps: C02_completion_painted (remap_to_input completes on tiling maps with untagged or Painted baits) and C02_painted_maps_complete "
-            "(the whole pipeline, chromosome naming included, completes; three further hypotheses each shown necessary by a computed counterexample). "
+            "(the whole pipeline, chromosome naming included, completes; three further hypotheses each shown necessary by a computed counterexample); "
+            "C02_end_to_end_painted(_order): the capstone for maps with untagged or Painted baits; C02_end_to_end_painted_named: a painted piece lands in a "
+            "rank-1 scaffold made from its own Pretext scaffold, named <prefix><k>[_unloc_<m>] (one more hypothesis, shown necessary). "
             "Coq theorems about the remapping stage (remap_to_input), no size bound, for EVERY PretextView-model edit script and more: "
             "(1) C02_completion: for every map that tiles every scaffold it shows (ascending baits cover 1..E without hole or overlap, "
             "pieces >= 2 texels when a scaffold is shown in more than one piece, any order / orientation / grouping, any subset of "
